@@ -35,6 +35,7 @@ static struct event_base *base;
 static int wa, wb, cbmode;
 static char *pats[MAXPAT]; static size_t patlen[MAXPAT]; static int npat;
 static char inv_msg[512];
+static int sock[2];
 
 /* ------------------------------------------------------------ allocation faults (C14) */
 static long alloc_count, alloc_fail_at;     /* fail the alloc_fail_at-th allocation (1-based); 0 = never */
@@ -190,13 +191,15 @@ static void ref_cleanup(const void *data, size_t datalen, void *extra)
 	r->cleanups++;
 	if (data != r->mem || datalen != r->len) ref_bad++;
 	if (cksum(r->mem, r->len) != r->sum) ref_bad++;
-	/* the memory stays allocated until teardown so that late accesses are still checkable */
+	/* the memory stays allocated until teardown, but is overwritten: a cleanup that comes while bytes of the
+	 * region are still in some buffer shows up as wrong content */
+	memset(r->mem, 'Z', r->len);
 	r->live = 0;
 }
 static void check_regions(void)
 {
 	for (int i = 0; i < nregions; i++)
-		if (cksum(regions[i].mem, regions[i].len) != regions[i].sum) ref_bad++;
+		if (!regions[i].cleanups && cksum(regions[i].mem, regions[i].len) != regions[i].sum) ref_bad++;
 }
 /* file segments */
 struct segrec { int cleanups; int id; int fd; };
@@ -453,6 +456,43 @@ static void exec_op(jval *op)
 			/* on failure the library has already dropped the caller's reference (as evbuffer_add_file relies on) */
 			if (r == 0) evbuffer_file_segment_free(seg);
 		}
+	} else if (!strcmp(a, "evread") || !strcmp(a, "evwrite") || !strcmp(a, "sfwrite")) {
+		long long hm = j_int(op, "hm", -1), kb = j_int(op, "kb", -1), e = j_int(op, "e", 0);
+		struct evbuffer *wb_ = B[b];
+		int sfd = -1;
+		alloc_armed = 0;
+		io_n = io_pos = 0; iologlen = 0; iolog[0] = 0;
+		if (e) io_script[io_n++] = -e; else if (kb >= 0) io_script[io_n++] = kb;
+		if (a[0] == 's') {       /* fresh buffer draining to an fd, one sendfile-capable segment */
+			char path[] = "/verif/out/tmp/evbsfXXXXXX";
+			struct evbuffer_file_segment *seg;
+			sfd = mkstemp(path);
+			if (sfd < 0) { perror("mkstemp"); exit(3); }
+			unlink(path);
+			if (write(sfd, d, dl) != (ssize_t)dl) { perror("write"); exit(3); }
+			wb_ = evbuffer_new();
+			evbuffer_set_flags(wb_, EVBUFFER_FLAG_DRAINS_TO_FD);
+			seg = evbuffer_file_segment_new(sfd, 0, -1, EVBUF_FS_CLOSE_ON_FREE);
+			if (!seg || evbuffer_add_file_segment(wb_, seg, (ev_off_t)j_int(op, "ob", 0), -1) < 0) { fprintf(stderr, "sfwrite setup failed\n"); exit(3); }
+			evbuffer_file_segment_free(seg);
+			fprintf(out, "\"sf\":%d,", wb_->first && (wb_->first->flags & EVBUFFER_SENDFILE) ? 1 : 0);
+		} else if (a[2] == 'r' && dl) {
+			if (write(sock[1], d, dl) != (ssize_t)dl) { perror("feed"); exit(3); }
+		}
+		alloc_armed = 1;
+		io_active = 1;
+		if (a[2] == 'r') r = evbuffer_read(B[b], sock[0], (int)hm);
+		else r = hm < 0 ? evbuffer_write(wb_, sock[0]) : evbuffer_write_atmost(wb_, sock[0], (ev_ssize_t)hm);
+		io_active = 0;
+		alloc_armed = 0;
+		if (a[2] != 'r') {   /* what arrived on the wire */
+			static char wire[1 << 17];
+			size_t got = 0; ssize_t x;
+			while ((x = __real_read(sock[1], wire + got, sizeof(wire) - got)) > 0) got += (size_t)x;
+			fprintf(out, "\"w\":"); put_decoded(wire, got); fputc(',', out);
+		}
+		if (a[0] == 's') { fprintf(out, "\"rest\":%zu,", evbuffer_get_length(wb_)); evbuffer_free(wb_); }
+		fprintf(out, "\"io\":[%s],", iolog);
 	} else if (!strcmp(a, "drain")) r = evbuffer_drain(B[b], (size_t)nb);
 	else if (!strcmp(a, "remove") || !strcmp(a, "copyout")) {
 		char *m = malloc((size_t)nb + 1);
@@ -483,9 +523,10 @@ static void exec_op(jval *op)
 		r = cbent[b][k] ? 0 : -1;
 	} else if (!strcmp(a, "cbdel")) {
 		int k = (int)j_int(op, "k", 1);
-		r = evbuffer_remove_cb_entry(B[b], cbent[b][k]); cbent[b][k] = NULL;
+		if (!cbent[b][k]) r = -96; else { r = evbuffer_remove_cb_entry(B[b], cbent[b][k]); cbent[b][k] = NULL; }
 	} else if (!strcmp(a, "cbflag")) {
 		int k = (int)j_int(op, "k", 1), f = (int)j_int(op, "f", 1);
+		if (!cbent[b][k]) r = -96; else
 		r = j_int(op, "v", 1) ? evbuffer_cb_set_flags(B[b], cbent[b][k], f) : evbuffer_cb_clear_flags(B[b], cbent[b][k], f);
 	} else if (!strcmp(a, "loop")) {
 		r = event_base_loop(base, EVLOOP_NONBLOCK);
@@ -504,6 +545,7 @@ static void run_scenario(jval *sc)
 	jval *cfg = j_get(sc, "cfg"), *h = j_get(sc, "h"), *pl = j_get(cfg, "pats");
 	size_t k;
 	int b, i;
+	long live0 = live_allocs;
 
 	wa = (int)j_int(cfg, "wa", 1); wb = (int)j_int(cfg, "wb", 1);
 	cbmode = (int)j_int(cfg, "cbmode", 0);
@@ -513,6 +555,8 @@ static void run_scenario(jval *sc)
 	nregions = nsegs = ref_bad = 0;
 	memset(cbent, 0, sizeof cbent);
 	base = NULL;
+	if (socketpair(AF_UNIX, SOCK_STREAM, 0, sock) < 0) { perror("socketpair"); exit(3); }
+	evutil_make_socket_nonblocking(sock[0]); evutil_make_socket_nonblocking(sock[1]);
 	if (cbmode == 2) { vt_now_ns = 1000LL * 1000000000LL; base = event_base_new(); }
 	for (b = 1; b <= NBUF; b++) {
 		B[b] = evbuffer_new();
@@ -532,10 +576,11 @@ static void run_scenario(jval *sc)
 		check_regions();
 		for (i = 0; i < nregions; i++) { if (regions[i].cleanups != (regions[i].live || regions[i].cleanups ? 1 : 0)) bad++; if (regions[i].live) notclean++; }
 		for (i = 0; i < nsegs; i++) if (segs[i].cleanups != 1) bad++;
-		fprintf(out, ",\"end\":{\"bad\":%d,\"notclean\":%d,\"leak\":%ld}}\n", bad + ref_bad, notclean, live_allocs);
+		fprintf(out, ",\"end\":{\"bad\":%d,\"notclean\":%d,\"leak\":%ld}}\n", bad + ref_bad, notclean, live_allocs - live0);
 		for (i = 0; i < nregions; i++) free(regions[i].mem);
 	}
 	for (i = 0; i < npat; i++) free(pats[i]);
+	close(sock[0]); close(sock[1]);
 }
 
 int main(int argc, char **argv)
